@@ -16,7 +16,7 @@
 From CJ Require Import Base Dbl Heap Forest ForestLemmas CoreDefs CoreRefineDupValue CoreLedgerGen.
 From CJ Require Import TierBridgeDefs TierBridgeOverwriteDefs MergeHeapDefs MergeHeapInv MergeHeapEx
   PatchHeapDefs PatchHeapPath PatchHeapPointer PatchHeapStr PatchHeapSteps PatchHeapDetach
-  PatchHeapApplyDefs PatchHeapOps PatchHeapFinish PatchHeapApply PatchHeapEx.
+  PatchHeapApplyDefs PatchHeapOps PatchHeapFinish PatchHeapApply PatchHeapTest PatchHeapEx.
 From CJ Require Tree PointerDefs PatchDefs CompareDefs SortSpec CoreOps.
 From CJ.gen Require Import Constants.
 From stdpp Require Import gmap.
@@ -275,3 +275,76 @@ Theorem C16_heap_apply_nonvacuous : forall (k : nat) t,
   end.
 Proof. exact pa_stage34. Qed.
 Print Assumptions C16_heap_apply_nonvacuous.
+
+(** ------------------------------------------------------------------ 5. compare_json and the test operation *)
+
+(** [all_keyed St t]: every member of an object node of [t] has a name (hypothesis of the C19 sort theorem) *)
+Theorem C16_heap_all_keyed_is : forall St t,
+  all_keyed St t <-> (forall i d cs, T i d cs ∈ nodes_t t -> Z.land (rd_type d) 255 = c_cJSON_Object -> Forall (has_key St) cs).
+Proof. exact (fun St t => conj (fun H => H) (fun H => H)). Qed.
+
+(** STAGE 5a.  The heap-level [compare_json] — which SORTS the objects it meets, in place — for two operands in two
+    different roots: [ta] at path [pa] of [ra], [tb] at path [pb] of [rb], forest [F2 A B C ra rb = A ++ rb :: B ++ ra :: C].
+    Whenever the value-level model returns [Ok (r, va', vb')] (with whatever fuel), the heap-level run returns [r], the
+    invariant holds for the forest with the two operands replaced by [ta'], [tb'] (same identities and data; the members
+    of objects reordered), which reify to the operands the model returns; strings, liveness, ownership tags and the
+    allocator are untouched; the (identity, data) pairs of the forest are a permutation of those before. *)
+Theorem C16_heap_compare_json : forall flag ta h A B C ra rb pa pb tb df lf vf r va' vb',
+  MInv h (F2 A B C ra rb) -> subtree_t ra pa = Some ta -> subtree_t rb pb = Some tb ->
+  all_keyed (h_str h) ta -> all_keyed (h_str h) tb ->
+  (CoreRefineDupForest.height ta < df)%nat -> (Pos.to_nat (h_next h) <= lf)%nat ->
+  PatchDefs.compare_json vf (reify (h_str h) ta) (reify (h_str h) tb) flag = Ok (r, va', vb') ->
+  exists h' ta' tb',
+    compare_json_fuel df lf (Some (tid ta)) (Some (tid tb)) flag h = Ret (r, h') /\
+    MInv h' (F2 A B C (put_t ra pa ta') (put_t rb pb tb')) /\
+    h_str h' = h_str h /\ h_live h' = h_live h /\ h_own h' = h_own h /\ h_next h' = h_next h /\
+    reify (h_str h) ta' = va' /\ reify (h_str h) tb' = vb' /\
+    tid ta' = tid ta /\ tid tb' = tid tb /\ tdata ta' = tdata ta /\ tdata tb' = tdata tb /\
+    CoreRefineFrame.datas (F2 A B C (put_t ra pa ta') (put_t rb pb tb')) ≡ₚ CoreRefineFrame.datas (F2 A B C ra rb).
+Proof. exact compare_rec. Qed.
+Print Assumptions C16_heap_compare_json.
+
+(** STAGE 5b.  [apply_patch] for the "test" operation: document [doc] (last root), the patch object at path [ppt] of the
+    root [rb].  Status as the value-level model; the document and the patch object afterwards reify to the model's
+    (members of compared objects sorted, in BOTH); the children of the patch object keep their identities and order;
+    strings and allocator untouched; [NoLeak] preserved. *)
+Theorem C16_heap_apply_patch_test : forall h A B doc rb ppt pid dpt cpt flag,
+  MInv h (F2 A B [] doc rb) -> subtree_t rb ppt = Some (T pid dpt cpt) ->
+  all_keyed (h_str h) doc -> all_keyed (h_str h) (T pid dpt cpt) ->
+  PatchDefs.decode_patch_operation (reify (h_str h) (T pid dpt cpt)) flag = Ok PatchDefs.TEST ->
+  match PatchDefs.apply_patch (reify (h_str h) doc) (reify (h_str h) (T pid dpt cpt)) flag with
+  | Ok (st, doc', pt') =>
+      exists h' docT ptT,
+        apply_patch nofail (Some (tid doc)) (Some pid) flag h = Ret (st, h') /\ MInv h' (F2 A B [] docT (put_t rb ppt ptT)) /\
+        tid docT = tid doc /\ tid ptT = pid /\ tdata ptT = dpt /\ tid <$> tchildren ptT = tid <$> cpt /\
+        reify (h_str h) docT = doc' /\ reify (h_str h) ptT = pt' /\
+        h_str h' = h_str h /\ h_next h' = h_next h /\
+        (NoLeak h (F2 A B [] doc rb) -> NoLeak h' (F2 A B [] docT (put_t rb ppt ptT))) /\
+        CoreRefineFrame.datas (F2 A B [] docT (put_t rb ppt ptT)) ≡ₚ CoreRefineFrame.datas (F2 A B [] doc rb)
+  | _ => True
+  end.
+Proof. exact apply_patch_test_refines. Qed.
+Print Assumptions C16_heap_apply_patch_test.
+
+(** non-vacuity: document {"o":{"b":1,"a":2},"n":5}, operations test /o {"a":2,"b":1} (status 0; the document's object
+    is left SORTED in the heap) and test /n 6 (status 1) *)
+Theorem C16_heap_test_example_runs :
+  out_val (pt_run 0) = Some 0 /\ out_val (pt_run 1) = Some 1 /\
+  (match PatchDefs.apply_patch pt_doc_v (default pt_doc_v (pt_ops !! 0%nat)) true with
+   | Ok (st, d, p) => st = 0 /\ pt_dump 0 (tid pt_doc) = Some (Some (d, true)) /\ pt_dump 0 (tid (pt_el 0)) = Some (Some (p, true))
+   | _ => False
+   end) /\
+  pt_dump 0 (tid pt_doc) =
+    Some (Some (vobj None [vobj (Some [111]) [vnum 2 (Some [97]); vnum 1 (Some [98])]; vnum 5 (Some [110])], true)) /\
+  bool_decide (lib_live (out_heap (pt_run 0) pt_heap) = lib_live pt_heap) = true.
+Proof. exact pt_runs. Qed.
+Theorem C16_heap_test_nonvacuous :
+  MInv pt_heap pt_F /\ NoLeak pt_heap pt_F /\ subtree_t pt_patches [0%nat] = Some (pt_el 0) /\
+  all_keyed (h_str pt_heap) pt_doc /\ all_keyed (h_str pt_heap) (pt_el 0) /\
+  PatchDefs.decode_patch_operation (reify (h_str pt_heap) (pt_el 0)) true = Ok PatchDefs.TEST /\
+  exists h' docT ptT,
+    apply_patch nofail (Some (tid pt_doc)) (Some (tid (pt_el 0))) true pt_heap = Ret (0, h') /\
+    MInv h' (F2 [] [] [] docT (put_t pt_patches [0%nat] ptT)) /\ NoLeak h' (F2 [] [] [] docT (put_t pt_patches [0%nat] ptT)) /\
+    reify (h_str pt_heap) docT = vobj None [vobj (Some [111]) [vnum 2 (Some [97]); vnum 1 (Some [98])]; vnum 5 (Some [110])].
+Proof. exact pt_stage5. Qed.
+Print Assumptions C16_heap_test_nonvacuous.
